@@ -286,6 +286,9 @@ impl World {
         if rng.chance(1, 8) {
             return self.session(rng);
         }
+        if rng.chance(1, 9) {
+            return self.tree_op(which, rng);
+        }
         let k = rng.below(self.akeys.len());
         let v = rng.pick(VALS).to_string();
         let u = if ns_key(k).is_empty() { rng.below(URIS.len()) } else { rng.below(URIS.len() - 1) };
@@ -753,6 +756,143 @@ impl World {
         (desc, problem)
     }
 
+    /// Calls from the tree-manipulation side on and around the element: ordinary children come and go (also children that
+    /// carry attributes and declarations of their own, with the same keys). None of it may change the element's own maps.
+    fn tree_op(&mut self, which: usize, rng: &mut Rng) -> (String, Option<String>) {
+        let e = self.e[which].node;
+        let name = self.xot.add_name("zzchild");
+        let mut problem: Option<String> = None;
+        let kind = rng.below(9);
+        let desc;
+        // a child element that carries entries under the same keys as its parent (other values)
+        let decorated = |w: &mut World, rng: &mut Rng| -> Node {
+            let c = w.xot.new_element(name);
+            for _ in 0..rng.range(1, 3) {
+                let k = rng.below(w.akeys.len().min(4));
+                w.xot.attributes_mut(c).insert(w.akeys[k], "child-value".to_string());
+            }
+            if rng.bool() {
+                let k = rng.below(w.nkeys.len().min(4));
+                if !ns_key(k).is_empty() {
+                    w.xot.namespaces_mut(c).insert(w.nkeys[k], w.uris[0]);
+                }
+            }
+            c
+        };
+        let r: Result<(), xot::Error> = match kind {
+            0 => {
+                desc = format!("prepend(e{}, new comment)", which);
+                let c = self.xot.new_comment("zz");
+                self.xot.prepend(e, c)
+            }
+            1 => {
+                desc = format!("prepend(e{}, empty element with attributes / declarations); remove(that element)", which);
+                let c = decorated(self, rng);
+                match self.xot.prepend(e, c) {
+                    Ok(()) => {
+                        if let Some(p) = self.check(which) {
+                            problem = Some(format!("after the prepend: {}", p));
+                        }
+                        self.xot.remove(c)
+                    }
+                    Err(er) => Err(er),
+                }
+            }
+            2 => {
+                desc = format!("append(e{}, element with attributes / declarations and a child); element_unwrap(that element)", which);
+                let c = decorated(self, rng);
+                let t = self.xot.new_comment("inner");
+                let _ = self.xot.append(c, t);
+                match if rng.bool() { self.xot.prepend(e, c) } else { self.xot.append(e, c) } {
+                    Ok(()) => self.xot.element_unwrap(c),
+                    Err(er) => Err(er),
+                }
+            }
+            3 => match self.xot.first_child(e) {
+                Some(f) => {
+                    desc = format!("element_wrap(first child of e{}); element_unwrap(wrapper)", which);
+                    match self.xot.element_wrap(f, name) {
+                        Ok(w) => {
+                            if let Some(p) = self.check(which) {
+                                problem = Some(format!("after the wrap: {}", p));
+                            }
+                            self.xot.element_unwrap(w)
+                        }
+                        Err(er) => Err(er),
+                    }
+                }
+                None => {
+                    desc = "noop".into();
+                    Ok(())
+                }
+            },
+            4 => match self.xot.first_child(e) {
+                Some(f) => {
+                    desc = format!("replace(first child of e{}, new element with attributes)", which);
+                    let c = decorated(self, rng);
+                    self.xot.replace(f, c)
+                }
+                None => {
+                    desc = "noop".into();
+                    Ok(())
+                }
+            },
+            5 => match self.xot.first_child(e) {
+                Some(f) => {
+                    desc = format!("insert_before(first child of e{}, new comment)", which);
+                    let c = self.xot.new_comment("zz");
+                    self.xot.insert_before(f, c)
+                }
+                None => {
+                    desc = "noop".into();
+                    Ok(())
+                }
+            },
+            6 => {
+                desc = format!("remove every ordinary child of e{}", which);
+                let kids: Vec<Node> = self.xot.children(e).collect();
+                let mut r = Ok(());
+                for k in kids {
+                    if let Err(er) = self.xot.remove(k) {
+                        r = Err(er);
+                    }
+                }
+                r
+            }
+            7 => {
+                desc = format!("text_content_mut(e{}) / append_text", which);
+                if let Some(t) = self.xot.text_content_mut(e) {
+                    t.set("tc");
+                }
+                self.xot.append_text(e, "more").map(|_| ())
+            }
+            _ => {
+                desc = format!("detach(e{}); put it back in front of / behind its sibling", which);
+                let sib = self.e[1 - which].node;
+                match self.xot.detach(e) {
+                    Ok(()) => {
+                        if let Some(p) = self.check(which) {
+                            problem = Some(format!("while detached: {}", p));
+                        }
+                        if which == 0 {
+                            self.xot.insert_before(sib, e)
+                        } else {
+                            self.xot.insert_after(sib, e)
+                        }
+                    }
+                    Err(er) => Err(er),
+                }
+            }
+        };
+        if let Err(er) = r {
+            problem = problem.or(Some(format!("refused: {:?}", er)));
+        }
+        if desc == "noop" {
+            return (desc, problem);
+        }
+        (format!("tree: {}", desc), problem)
+    }
+
     /// ONE mutable view kept alive over several updates and reads (a view that remembers something about the map
     /// must keep it up to date itself)
     fn session(&mut self, rng: &mut Rng) -> (String, Option<String>) {
@@ -954,7 +1094,104 @@ impl World {
     }
 }
 
+/// "On any element": elements as the parser hands them over. Start tags with 2-5 attributes written through two
+/// prefixes of one namespace (declared on the element, on an ancestor, or one each) and without prefix. Whatever the
+/// parser accepts must start life as a map: unique keys, every accessor agreeing, entries in the order written.
+fn parsed_elements_case(rng: &mut Rng, ctx: &mut Ctx) {
+    let layout = rng.below(4);
+    let (on_root, on_el) = match layout {
+        0 => (" xmlns:p=\"u\" xmlns:q=\"u\"", ""),
+        1 => ("", " xmlns:p=\"u\" xmlns:q=\"u\""),
+        2 => (" xmlns:p=\"u\"", " xmlns:q=\"u\""),
+        _ => (" xmlns:q=\"u\" xmlns:p=\"w\"", " xmlns:p=\"u\""),
+    };
+    let pool = ["p:x", "q:x", "p:y", "q:y", "x", "y", "q:z"];
+    let mut idx: Vec<usize> = (0..pool.len()).collect();
+    rng.shuffle(&mut idx);
+    let n = rng.range(2, 5);
+    let written: Vec<(&str, String)> = idx.iter().take(n).enumerate().map(|(i, k)| (pool[*k], format!("v{}", i))).collect();
+    let mut tag = String::new();
+    let decl_first = rng.bool();
+    if decl_first {
+        tag.push_str(on_el);
+    }
+    for (name, v) in &written {
+        tag.push_str(&format!(" {}=\"{}\"", name, v));
+    }
+    if !decl_first {
+        tag.push_str(on_el);
+    }
+    let text = format!("<r{}><m><a{}/></m></r>", on_root, tag);
+    let expanded = |n: &str| -> (String, String) {
+        match n.split_once(':') {
+            Some((_, l)) => ("u".to_string(), l.to_string()),
+            None => (String::new(), n.to_string()),
+        }
+    };
+    let want: Vec<((String, String), String)> = written.iter().map(|(n, v)| (expanded(n), v.clone())).collect();
+    let mut uniq = std::collections::HashSet::new();
+    let has_dup = !want.iter().all(|(k, _)| uniq.insert(k.clone()));
+    let mut xot = Xot::new();
+    let doc = match guard(|| xot.parse(&text)) {
+        Ok(Ok(d)) => d,
+        Ok(Err(_)) => {
+            ctx.count(if has_dup { "parsed_elements.duplicate_rejected" } else { "parsed_elements.rejected" });
+            return;
+        }
+        Err(p) => {
+            ctx.violation("parse panicked", format!("C11/parsed-element/panic/{}", p.sig()), J::obj().set("text", J::s(text)).set("panic", J::s(p.short())));
+            return;
+        }
+    };
+    let a = match guard(|| {
+        let r = xot.document_element(doc).ok()?;
+        let m = xot.first_child(r)?;
+        xot.first_child(m)
+    }) {
+        Ok(Some(a)) => a,
+        _ => return,
+    };
+    let bad: Option<String> = guard(|| {
+        let view = xot.attributes(a);
+        let got: Vec<((String, String), String)> = view
+            .iter()
+            .map(|(k, v)| {
+                let (l, u) = xot.name_ns_str(k);
+                ((u.to_string(), l.to_string()), v.clone())
+            })
+            .collect();
+        let mut seen = std::collections::HashSet::new();
+        if !got.iter().all(|(k, _)| seen.insert(k.clone())) {
+            return Some(format!("the element starts with two entries under one key: {:?}", got));
+        }
+        if view.len() != got.len() || view.to_hashmap().len() != got.len() || view.keys().count() != got.len() || view.nodes().count() != got.len() || view.to_vec().len() != got.len() {
+            return Some(format!("len / to_hashmap / keys / nodes / to_vec disagree about {:?}", got));
+        }
+        for (k, v) in view.iter() {
+            if view.get(k) != Some(v) || !view.contains_key(k) || view.get_node(k).is_none() {
+                return Some("get / contains_key / get_node miss a key that iter() lists".to_string());
+            }
+        }
+        if !has_dup && got != want {
+            return Some(format!("entries {:?}, written {:?}", got, want));
+        }
+        None
+    })
+    .unwrap_or_else(|p| Some(format!("panic: {}", p.short())));
+    match bad {
+        None => ctx.count("parsed_elements.views_checked"),
+        Some(b) => ctx.violation(
+            "an element handed over by the parser is not an insertion-ordered map with unique keys",
+            "C11/parsed-element/view".to_string(),
+            J::obj().set("text", J::s(text)).set("what", J::s(b)),
+        ),
+    }
+}
+
 fn op_class(desc: &str) -> String {
+    if desc.starts_with("tree: ") {
+        return "tree_op".to_string();
+    }
     if desc.contains(" session:") {
         return format!("{}.session", desc.split('(').next().unwrap_or("view"));
     }
@@ -985,15 +1222,19 @@ impl Monitor for C11 {
         vec![Stream::new("forced-empty-and-single", 8), Stream::new("histories", scaled(n, budget))]
     }
     fn rule(&self) -> String {
-        "two sibling elements starting with 0-4 namespace and 0-4 attribute entries (keys from pools of 4; one history in twenty-five uses pools of 40 keys and starts with 10-40 entries per map, so that maps grow past 16 and 32 entries); histories of 1-40 map-style and node-style updates (insert, remove, get_mut, clear, every Entry path, set_/remove_ shorthands, append_*_node, any_append, append_namespace, detach/remove of entry nodes, moving an entry node in from the sibling); one step in eight is a session of 2-6 updates and reads through ONE mutable view kept alive; the common parent binds some of the same prefixes; after every step every accessor of the read-only and the mutable view of both maps is compared with an ordered-map model, and the start tags of the serialisation of the document and of each element on its own are read by the independent XML reader. Non-trivial = >= 3 effective steps; distinct by hash of the step list".into()
+        "two sibling elements starting with 0-4 namespace and 0-4 attribute entries (keys from pools of 4; one history in twenty-five uses pools of 40 keys and starts with 10-40 entries per map, so that maps grow past 16 and 32 entries); histories of 1-40 map-style and node-style updates (insert, remove, get_mut, clear, every Entry path, set_/remove_ shorthands, append_*_node, any_append, append_namespace, detach/remove of entry nodes, moving an entry node in from the sibling); one step in nine is a call from the tree side on or around the element (prepend / append / replace / element_wrap / element_unwrap / remove of ordinary children, also children carrying attributes and declarations under the same keys; text_content_mut; detaching the element and putting it back), which must leave both maps as they are; one step in eight is a session of 2-6 updates and reads through ONE mutable view kept alive; the common parent binds some of the same prefixes; after every step every accessor of the read-only and the mutable view of both maps is compared with an ordered-map model, and the start tags of the serialisation of the document and of each element on its own are read by the independent XML reader. One case in twelve instead parses a start tag with 2-5 attributes written through two prefixes of one namespace (declared on the element, an ancestor, or one each): whatever the parser accepts must have unique keys, agreeing accessors and the written order. Non-trivial = >= 3 effective steps; distinct by hash of the step list".into()
     }
     fn floors(&self, _tier: Tier) -> Vec<(&'static str, u64)> {
-        vec![("steps_checked", 100_000), ("serialisations_checked", 10_000), ("views_compared_nonempty", 10_000), ("views_compared_empty", 1_000), ("wide_pool_histories", 500)]
+        vec![("steps_checked", 100_000), ("serialisations_checked", 10_000), ("views_compared_nonempty", 10_000), ("views_compared_empty", 1_000), ("wide_pool_histories", 500), ("parsed_elements.views_checked", 500), ("step.tree_op", 2_000)]
     }
     fn assumptions(&self) -> Vec<String> {
         vec!["key pools of 4 (or 40) attribute names / prefixes; values from a small pool".into()]
     }
     fn run_case(&self, stream: usize, idx: u64, rng: &mut Rng, ctx: &mut Ctx) {
+        if stream == 1 && rng.chance(1, 12) {
+            parsed_elements_case(rng, ctx);
+            return;
+        }
         let mut w = match guard(|| World::new(rng)) {
             Ok(w) => w,
             Err(p) => {
